@@ -4,28 +4,141 @@ The model's decoder has no context argument: the outcome is a function of the by
 (the correspondence check compares the real decoder across differing contexts).
 -/
 import Mctp.Lemmas.Decode
+import Mctp.Lemmas.DecodeNF
 import Mctp.Spec.Accept
 namespace Mctp
+
 namespace C09
 
 theorem accept_iff (p : Bytes) (h : Spec.inClaim p = true) :
     (decode p).isOk = Spec.accept p := by
-  sorry
+  unfold Spec.inClaim at h
+  simp only [Bool.and_eq_true] at h
+  obtain ⟨⟨hlong, hexcl⟩, hpan⟩ := h
+  unfold Spec.longEnough at hlong
+  simp only [Bool.and_eq_true, decide_eq_true_eq] at hlong
+  obtain ⟨h10, hlong⟩ := hlong
+  have hne : p ≠ [] := by intro h; subst h; simp at h10
+  have h10' : ¬ p.length < 10 := by omega
+  rw [decode_nf, if_neg h10']
+  unfold Spec.accept
+  cases hh : Spec.hdrOk p
+  · simp [Out.isOk]
+  · simp only [Bool.not_true, Bool.false_eq_true, if_false, Bool.true_and]
+    rw [pecOk_eq p hne]
+    cases hc : Spec.isControl p
+    · simp only [Bool.false_eq_true, if_false, Bool.and_true]
+      unfold vendorArm
+      by_cases hp : byteAt p (p.length-1) = calcPec p
+      · simp [hp, Out.isOk]
+      · simp [hp, Out.isOk]
+    · simp only [if_true]
+      unfold Spec.decodePanicClass at hpan
+      rw [hc] at hlong hexcl
+      rw [hh, hc] at hpan
+      simp only [if_true, Bool.true_and, Bool.and_true, decide_eq_true_eq, h10, decide_true] at hlong hexcl hpan
+      rw [getCtrl_drop9 p _ h10]
+      cases hr : Spec.isRequest p
+      · rw [hr] at hlong hexcl hpan
+        simp at hlong hexcl hpan
+        have h12' : ¬ p.length < 12 := by omega
+        have h13' : ¬ p.length < 13 := by omega
+        rw [if_neg h12', if_neg h13']
+        simp only [Bool.false_eq_true, if_false]
+        have hpan := hpan (by omega) hlong
+        by_cases hcc : Spec.ccByte p = 0x00#8
+        · have hcc6 : ¬ 6 ≤ (Spec.ccByte p).toNat := by rw [hcc]; decide
+          rw [if_neg hcc6] at hpan
+          have hun : Spec.respUnimpl (Spec.cmdOf p) = false := by
+            cases hu : Spec.respUnimpl (Spec.cmdOf p)
+            · rfl
+            · simp [hcc, hu] at hpan
+          obtain ⟨hresp, hfix⟩ := respDataLen_tbl _ hun (by simp [hexcl])
+          simp only [hcc, ne_eq, not_true, if_false]
+          rw [hresp, Out.bind_ok, lenFits_eq _ _ hfix, Out.isOk_bind_ok, ctrlFin_isOk]
+          simp only [beq_self_eq_true, Bool.true_and]
+          rfl
+        · have hcc6 : (Spec.ccByte p).toNat < 6 := by
+            by_cases h6 : 6 ≤ (Spec.ccByte p).toNat
+            · simp [h6] at hpan
+            · omega
+          obtain ⟨c, hc'⟩ := ccOf_lt _ hcc6
+          simp [hcc, hc', Out.isOk]
+      · rw [hr] at hlong hexcl hpan
+        simp at hlong hexcl hpan
+        have h12' : ¬ p.length < 12 := by omega
+        rw [if_neg h12']; simp only [if_true]
+        obtain ⟨hreq, hfix⟩ := reqDataLen_tbl _ (hpan hlong)
+        rw [hreq, Out.bind_ok, lenFits_eq _ _ hfix, Out.isOk_bind_ok, ctrlFin_isOk]
+        rfl
+
 
 /-- the accepted payload is precisely the bytes between the message header and the PEC -/
 theorem payload (p : Bytes) (t : MsgType) (off len : Nat) (h : decode p = .ok (t, off, len)) :
     t = Spec.msgTypeOf p ∧ off = Spec.hdrEnd p ∧ off + len = p.length - 1 ∧ off ≤ p.length - 1 := by
-  sorry
+  obtain ⟨h10, hh, hpec, hcase⟩ := decode_ok_inv h
+  rcases hcase with ⟨hc, ht, ho, hl⟩ | ⟨hc, ht, c, hcok, ho, hl⟩
+  · refine ⟨ht, ?_, by omega, by omega⟩
+    unfold Spec.hdrEnd; rw [hc]; simpa using ho
+  · rw [msgTypeOf_of_isControl p hc]
+    unfold Spec.hdrEnd; rw [hc]
+    rcases (getCtrl_ok_inv h10 hcok).2 with ⟨hr, h12, hcv, _⟩ | ⟨hr, h13, _, hcv, _⟩
+    · subst hcv; rw [hr]; simp at ho hl ⊢
+      exact ⟨ht, ho, by omega, by omega⟩
+    · subst hcv; rw [hr]; simp at ho hl ⊢
+      exact ⟨ht, ho, by omega, by omega⟩
 
 /-- every rejection names a condition that really holds of the input -/
 theorem truthful (p : Bytes) (e : DErr) (hc : Spec.inClaim p = true) (h : decode p = .err e) :
     Spec.errTruthful p e = true := by
-  sorry
+  obtain ⟨h10, hclaim⟩ := inClaim_inv p hc
+  have hne : p ≠ [] := by intro h; subst h; simp at h10
+  rcases decode_err_inv h with ⟨hlt, he⟩ | ⟨_, hh, hctl, hp, he⟩ | ⟨_, hh, hctl, hg⟩
+  · subst he
+    rcases hlt with hlt | hlt
+    · omega
+    · simp [Spec.errTruthful, hlt]
+  · subst he
+    simp [Spec.errTruthful, pecOk_eq p hne, hp]
+  · obtain ⟨hreq, hresp⟩ := hclaim hctl hh
+    rcases getCtrl_err_inv h10 hg with ⟨h12, he⟩ | ⟨hr, h12, n, hn, hcase⟩ | ⟨hr, h12, h13, he⟩ |
+        ⟨hr, h13, hcc, c, hcv, he⟩ | ⟨hr, h13, hcc, n, hn, hcase⟩
+    · subst he
+      cases hr : Spec.isRequest p
+      · have := (hresp hr).1; omega
+      · have := (hreq hr).1; omega
+    · obtain ⟨_, hun⟩ := hreq hr
+      obtain ⟨htbl, hfix⟩ := reqDataLen_tbl _ hun
+      rw [htbl] at hn; injection hn with hn
+      rcases hcase with ⟨hp, he⟩ | ⟨hp, hpos, hlen, he⟩
+      · subst he; simp [Spec.errTruthful, pecOk_eq p hne, hp]
+      · subst he
+        simp only [Spec.errTruthful, hctl, hr, if_true, Bool.true_and, lenFits_eq _ _ hfix, hn]
+        simp [hpos, hlen]
+    · have := (hresp hr).1; omega
+    · subst he
+      obtain ⟨h1, h2, _⟩ := ccOf_ok _ _ hcv
+      simp [Spec.errTruthful, hctl, hr, h13, ← h1, h2 hcc]
+    · obtain ⟨_, _, hex, hun⟩ := hresp hr
+      obtain ⟨htbl, hfix⟩ := respDataLen_tbl _ (hun hcc) hex
+      rw [htbl] at hn; injection hn with hn
+      rcases hcase with ⟨hp, he⟩ | ⟨hp, hpos, hlen, he⟩
+      · subst he; simp [Spec.errTruthful, pecOk_eq p hne, hp]
+      · subst he
+        simp only [Spec.errTruthful, hctl, hr, Bool.false_eq_true, if_false, Bool.true_and, lenFits_eq _ _ hfix, hn]
+        simp [hpos, hlen]
 
 /-- an error reports message type Invalid or the packet's real type -/
 theorem err_type (p : Bytes) (t : MsgType) (e : DecErr) (h : decode p = .err (t, e)) :
     t = .invalid ∨ (Spec.hdrOk p = true ∧ t = Spec.msgTypeOf p) := by
-  sorry
+  rcases decode_err_inv h with ⟨_, he⟩ | ⟨_, hh, hctl, hp, he⟩ | ⟨h10, hh, hctl, hg⟩
+  · injection he with h1 _; exact .inl h1
+  · injection he with h1 _; exact .inr ⟨hh, h1⟩
+  · right; refine ⟨hh, ?_⟩
+    rw [msgTypeOf_of_isControl p hctl]
+    rcases getCtrl_err_inv h10 hg with ⟨_, he⟩ | ⟨_, _, n, _, ⟨_, he⟩ | ⟨_, _, _, he⟩⟩ | ⟨_, _, _, he⟩ |
+        ⟨_, _, _, c, _, he⟩ | ⟨_, _, _, n, _, ⟨_, he⟩ | ⟨_, _, _, he⟩⟩
+    all_goals (cases he; rfl)
 
 end C09
 end Mctp
